@@ -1,6 +1,5 @@
 import Model.Ansi
 import Model.GoSem
-import Generated.GoCode
 
 /-
   Helper lemmas for Props/Gen16.lean: the Go-semantics string helpers (`Model/GoSem.lean`) against
